@@ -34,6 +34,7 @@ type scenario struct {
 	Op          string     `json:"op"`
 	MustSkip    [][]string `json:"mustSkip"`
 	MustProcess [][]string `json:"mustProcess"`
+	InvalidSets [][]string `json:"invalidSets"`
 }
 
 type event struct {
@@ -234,15 +235,24 @@ func replay(a *hk.Args) error {
 				return err
 			}
 			w.Write(ev)
-			// one invalid-pattern run per (tree, operation, backend)
+			// the model's invalid pattern sets, once per (tree, operation, backend), in both orders
 			k := sc.Tree + sc.Op + backend
 			if !seenInvalid[k] {
 				seenInvalid[k] = true
-				ev, err := runOne(sc, backend, a.Dir, append([]string{"x(y"}, pats...), true)
-				if err != nil {
-					return err
+				for _, inv := range sc.InvalidSets {
+					set := append([]string{}, inv...)
+					sort.Strings(set)
+					for rev := 0; rev < len(set); rev++ {
+						if rev == 1 {
+							set[0], set[len(set)-1] = set[len(set)-1], set[0]
+						}
+						ev, err := runOne(sc, backend, a.Dir, append(append([]string{}, set...), pats...), true)
+						if err != nil {
+							return err
+						}
+						w.Write(ev)
+					}
 				}
-				w.Write(ev)
 			}
 		}
 	}
